@@ -250,7 +250,7 @@ theorem restart_invAll {s : State} (hall : InvAll s) (height time : Int) :
     simp only [Bool.not_true, Bool.false_eq_true, if_false, exportG]
     show (match importBindings s1 L with | none => none | some s2 => some _) = some s'
     rw [hs2]
-  let S : State := { s' with bank := (prep s).s.bank }
+  let S : State := { s' with bank := (prep s).s.bank, usedIds := s.usedIds }
   have hrestart : restart s height time = some S := by
     unfold restart
     rw [hnp]; dsimp only
@@ -388,9 +388,10 @@ theorem restart_invAll {s : State} (hall : InvAll s) (height time : Int) :
         obtain ⟨x0, _, rfl⟩ := hctxget c x hx
         simp [resetCtx] at hrun
       · intro c hsome
-        show c ∈ (entries (prep s).s.ctxs).map (·.1)
-        rw [hctxs] at hsome
-        exact (get_isSome_iff_mem_keys _ _).mp hsome
+        show c ∈ s.usedIds
+        obtain ⟨x, hx⟩ := Option.isSome_iff_exists.mp hsome
+        obtain ⟨x0, hx0, _⟩ := hctxget c x hx
+        exact hinv.x.used c (by rw [hx0]; rfl)
       · intro r q hq; simp at hq
       · intro r hr; simp at hr
       · intro svc pv e r; simp
